@@ -10,6 +10,8 @@ import traceback
 
 from . import core
 
+FAILURE_STAGE_PIDS = ('C02', 'C03', 'C06', 'C08', 'C09', 'C13')
+
 
 def cmd_check(args) -> int:
     tier = args.tier or os.environ.get('VERIF_TIER') or 'quick'
@@ -34,6 +36,11 @@ def cmd_check(args) -> int:
         core.import_guard()
         mod = importlib.import_module(f'vf.checks.{pid.lower()}')
         mod.explore(ctx)
+        if pid in FAILURE_STAGE_PIDS:
+            # every generator property is also explored after histories of failed builds (vf/failhist.py); C12 runs the
+            # full family itself
+            from . import failhist  # pylint: disable=import-outside-toplevel
+            failhist.explore_reduced(ctx)
         return core.finish(ctx)
     except core.HarnessError as exc:
         print(f'HARNESS-ERROR {pid}: {exc}')
@@ -52,8 +59,14 @@ def cmd_replay(args) -> int:
     mod = importlib.import_module(f'vf.checks.{pid.lower()}')
     runs = []
     for _ in range(2):
-        res = mod.judge(body['case'])
+        if isinstance(body['case'], dict) and 'fs_history' in body['case']:
+            from . import failhist  # pylint: disable=import-outside-toplevel
+            res = failhist.judge_fs(body['case'])
+        else:
+            res = mod.judge(body['case'])
         runs.append(sorted([list(map(str, r[:2])) for r in res]))
+    if hasattr(mod, 'cleanup_reuse'):
+        mod.cleanup_reuse()
     if runs[0] != runs[1]:
         print('HARNESS-ERROR: replay not deterministic', runs)
         return 2
